@@ -522,4 +522,41 @@ theorem dispatch (g : Geo) (minZ maxZ : Nat) :
   simp only [Bool.and_eq_true, beq_iff_eq]
   refine ⟨?_, ?_, ?_, ?_, ?_, ?_, ?_, ?_, ?_, ?_⟩ <;> constructor <;> intro h <;> omega
 
+/-! ### loader.py: z-slices on N×M×4 layouts (`read_and_decompress_zslice_set_adv`, `_distribute_chunk_into_buffer`) -/
+
+/-- with an integral bit rate `r` (unit of `8·r` bytes) and extents padded to multiples of 4: the fetch of every block and
+the row-by-row placement of its sub-blocks are the model's -/
+theorem zslice_adv (g : Geo) (zb r : Nat) (hu : g.u = 8 * r) (hb1 : 4 ∣ g.b1) (hP1 : 4 ∣ g.P1) :
+    Gen.adv_count g.NB0 g.NB1 = g.NB0 * g.NB1 ∧ Gen.adv_rows g.b0 = g.b0 / 4
+    ∧ Gen.adv_sub_block g.b1 r = (g.b1 / 4) * g.u
+    ∧ (∀ id, Loader.zsliceAdvFetch g zb id =
+        (Gen.adv_fetch_offset 4096 (Gen.adv_block_num (Gen.adv_block_i id g.NB1) (Gen.adv_block_x id g.NB1) g.NB1) g.NB2 zb, 4096))
+    ∧ (∀ id row, Gen.adv_buf_start 4096 (Gen.adv_block_i id g.NB1) (Gen.adv_block_x id g.NB1) g.NB1 r g.P1 row
+          (Gen.adv_sub_block g.b1 r)
+        = (id / g.NB1) * 4096 * g.NB1 + (id % g.NB1) * ((g.b1 / 4) * g.u) + row * ((g.P1 / 4) * g.u))
+    ∧ (∀ row, Gen.adv_src_lo row (Gen.adv_sub_block g.b1 r) = row * ((g.b1 / 4) * g.u)) := by
+  obtain ⟨k1, hk1⟩ := hb1
+  obtain ⟨kp, hkp⟩ := hP1
+  have esub : Gen.adv_sub_block g.b1 r = (g.b1 / 4) * g.u := by
+    unfold Gen.adv_sub_block
+    rw [hu, hk1, Nat.mul_div_cancel_left _ (by decide : 0 < 4)]
+    have : 4 * 4 * (4 * k1) * r = 8 * (k1 * (8 * r)) := by
+      simp only [Nat.mul_comm, Nat.mul_left_comm, Nat.mul_assoc]
+    rw [this, Nat.mul_div_cancel_left _ (by decide : 0 < 8)]
+  have erow : g.P1 * 4 * 4 * r / 8 = (g.P1 / 4) * g.u := by
+    rw [hu, hkp, Nat.mul_div_cancel_left _ (by decide : 0 < 4)]
+    have : 4 * kp * 4 * 4 * r = 8 * (kp * (8 * r)) := by
+      simp only [Nat.mul_comm, Nat.mul_left_comm, Nat.mul_assoc]
+    rw [this, Nat.mul_div_cancel_left _ (by decide : 0 < 8)]
+  refine ⟨rfl, rfl, esub, ?_, ?_, ?_⟩
+  · intro id
+    unfold Loader.zsliceAdvFetch Gen.adv_fetch_offset Gen.adv_block_num Gen.adv_block_i Gen.adv_block_x
+    rfl
+  · intro id row
+    unfold Gen.adv_buf_start Gen.adv_block_i Gen.adv_block_x
+    rw [esub, erow]
+  · intro row
+    unfold Gen.adv_src_lo
+    rw [esub]
+
 end Sgz.Tie
